@@ -99,6 +99,7 @@ class G:
         self.setx_targets = []
         self.uses_setx = False
         self.inner_comp = False
+        self.maxd = 2           # expression depth (3 in the thorough tier)
 
     def site(self):
         self.k += 1
@@ -113,7 +114,7 @@ class G:
         r = self.r
         x = r.random()
         v = self.pick_var(env, "int")
-        if d >= 2 or x < 0.25:
+        if d >= self.maxd or x < 0.25:
             if v and r.random() < 0.7:
                 return ("var", v, env[v][1])
             return ("int", r.randint(0, 3))
@@ -143,7 +144,7 @@ class G:
         v = self.pick_var(env, "ilist")
         if x < 0.30:
             return ("range", self.gint(env, d + 1, eff))
-        if x < 0.55 or d >= 2:
+        if x < 0.55 or d >= self.maxd:
             n = r.randint(0, 3)
             i = r.randrange(n) if n else -1
             return ("list", [self.gint(env, d + 1, eff and j == i) for j in range(n)])
@@ -257,8 +258,10 @@ def refs_in(e, out):
             refs_in(x, out)
 
 
-def build(rng, scope, form):
+def build(rng, scope, form, tier="quick"):
     g = G(rng, scope, form)
+    if tier == "thorough":
+        g.maxd = 3
     r = rng
     is_for = form == "for"
     # pre-bound names of the enclosing scope
@@ -803,7 +806,7 @@ def cases(seed, tier, shard, nshards):
         i += 1
         scope = SCOPES[i % 3]
         form = rng.choices(FORMS, [4, 2, 3, 3, 3])[0]
-        spec = build(rng, scope, form)
+        spec = build(rng, scope, form, tier)
         analyse(spec)
         g = spec["g"]
         variants = []
